@@ -88,6 +88,18 @@ inductive Kind
   | dict           -- dict[str, Any]
   deriving DecidableEq, Repr
 
+/-- the field kinds without their parameters (what the regenerated option table says about an option) -/
+inductive KindTag
+  | bool | int | autoInt | hexInt | text | opaque | hexBytes | ranges | ranges2d | enum | choice | autoInts
+  | tuples | enums | dict
+  | unmodelled        -- an annotation the model has no kind for
+  deriving DecidableEq, Repr
+
+def Kind.tag : Kind → KindTag
+  | .bool => .bool | .int => .int | .autoInt => .autoInt | .hexInt => .hexInt | .text => .text | .opaque => .opaque
+  | .hexBytes => .hexBytes | .ranges => .ranges | .ranges2d => .ranges2d | .enum _ => .enum | .choice _ => .choice
+  | .autoInts => .autoInts | .tuples _ => .tuples | .enums _ => .enums | .dict => .dict
+
 structure Field where
   kind : Kind
   optional : Bool := false
@@ -414,12 +426,28 @@ def reported (k : Kind) (r : Raw) : Raw :=
   | .tuples n, .list xs => firstBad (fun a => match parseTuple n a with | .ok _ => false | .error _ => true) xs
   | _, _ => r
 
+/-- pydantic validates every element and lists every failure: all the inputs a rejection reports, in order -/
+def reportedAll (k : Kind) (r : Raw) : List Raw :=
+  let allBad (bad : Atom → Bool) (xs : List Atom) : List Raw :=
+    match xs.filter bad with
+    | [] => [r]
+    | bs => bs.map Raw.atom
+  match k, r with
+  | .autoInts, .list xs => allBad (fun a => (atomAutoInt a).isNone) xs
+  | .enums ms, .list xs => allBad (fun a => (enumLookup ms a).isNone) xs
+  | .tuples n, .list xs => allBad (fun a => match parseTuple n a with | .ok _ => false | .error _ => true) xs
+  | _, _ => [r]
+
 /-- `_validation_error`: the message says "default of <name> from <environment variable | config file>" when the
     reported input *equals* the value taken from there, "argument --<name>" otherwise -/
 def blame (inp : Raw) (extra : Option (Source × Raw)) : Source :=
   match extra with
   | some (s, r) => if r == inp then s else .cli
   | none => .cli
+
+/-- the providers named by the lines of one rejection message -/
+def blamedAll (k : Kind) (r : Raw) (extra : Option (Source × Raw)) : List Source :=
+  (reportedAll k r).map (fun i => blame i extra)
 
 /-- the argparse default of an option: positional arguments get none (`PydanticField.arg_default`) -/
 def offered (f : Field) (extra : Option (Source × Raw)) : Option (Source × Raw) :=
